@@ -105,6 +105,10 @@ pub struct World {
     pub value_pool: Vec<Value>,
     pub ledger_moved: bool,
     pub cancel_at_tick: Option<u64>,
+    /// simulated real time at tick 0 of this world, and a step of the wall clock (REALTIME only; the
+    /// monotonic clock never goes back) that takes effect from a given tick on
+    pub clock_base_ns: u64,
+    pub realtime_step: Option<(u64, i64)>,
     /// per resolution bookkeeping (reset by `begin_resolution`)
     pub res_calls: u64,
     pub res_faults: u64,
@@ -136,6 +140,8 @@ impl World {
             value_pool: vec![],
             ledger_moved: false,
             cancel_at_tick: None,
+            clock_base_ns: 0,
+            realtime_step: None,
             res_calls: 0,
             res_faults: 0,
             res_view_faults: 0,
